@@ -116,6 +116,9 @@ def step (cfg : Cfg) : List String → String
       if n = 0 ∨ n > 256 ∨ rounds > 64 then "bad-op" else
       ";".intercalate ((List.range n).flatMap fun tid => runThread cfg tid seed rounds)
     | _, _, _ => "bad-op"
+  -- focused trial (`focus`: the item every thread calls first, `warm`: warm the feature cache first):
+  -- scheduling hints for the real threads only; the sequential results are the same
+  | ["conc", n, seed, rounds, _focus, _warm] => step cfg ["conc", n, seed, rounds]
   | _ => "bad-op"
 
 end CC.Drv.Conc
